@@ -32,6 +32,9 @@ def run(rep):
     design_check(rep, res, "Scat")
     scatchecks.forward_checks(rep, fnd, "C08", rep.tier)
     scatchecks.forward_regimes(rep, "C08", rep.tier)
+    scatchecks.big_forward(rep, "C08", rep.tier)         # beyond every size threshold, with and without a recorded graph
+    from .. import scatgrad
+    scatgrad.checks(rep, "C08", rep.tier, "value")      # ScatGrad.tla's term table interpreted with the reference operators
     rep.assumptions += ["value equality is required on even-sized (first order) / multiple-of-8 (second order) images; other sizes: shape and sign",
                         "the linear DTCWT levels are C03's obligation"]
 
